@@ -59,6 +59,12 @@ PROGRAMS = {
                   ["enable_eom", "drive", 8.0, 0.0, -1.0], ["add_eom", "drive", 40, 0.0], ["delay", "drive", 20], ["add_eom", "drive", 16, 1.0]],
     "retarget": [["declare", "l", "ryd_loc", "q0"], ["add", "l", ["cp", 16, 1.0, 0.0, 0.0]], ["target", "l", "q1"],
                  ["add", "l", ["cp", 16, 1.0, 0.0, 0.0]], ["target", "l", ["q0", "q2"]], ["add", "l", ["cp", 16, 1.0, 0.0, 1.0]]],
+    # the local channel starts on two atoms (its initial target) and is retargeted to two others
+    "multi_init": [["declare", "l", "ryd_loc", ["q0", "q1"]], ["add", "l", ["cp", 40, 1.0, 0.0, 0.0]], ["target", "l", "q2"],
+                   ["add", "l", ["cp", 40, 1.0, 0.0, 0.0]]],
+    # an SLM mask in Ising mode: the sequence itself computes the DMM pulse from the device's DMM limits
+    "slm": [["declare", "g", "ryd_glob"], ["config_slm", ["q0", "q1"]], ["add", "g", ["cp", 52, 8.0, 0.0, 0.0]],
+            ["add", "g", ["cp", 40, 1.0, 0.0, 1.0]]],
     # the program ends with a retarget (nothing after it re-checks the sequence length)
     "retarget_tail": [["declare", "l", "ryd_loc", "q0"], ["add", "l", ["cp", 400, 1.0, 0.0, 0.0]], ["target", "l", "q1"]],
     # the phase-drift correction of disable_eom_mode moves the reference that a second channel of the basis then uses
@@ -71,7 +77,7 @@ PROGRAMS = {
             ["add_dmm", "dmm_0", ["ramp", 40, -2.0, -1.0], "wait-for-all"]],
 }
 
-INT_PARAMS = ("min_duration", "max_duration", "custom_phase_jump_time", "min_retarget_interval", "fixed_retarget_t")
+INT_PARAMS = ("min_duration", "max_duration", "custom_phase_jump_time", "min_retarget_interval", "fixed_retarget_t", "max_targets")
 REAL_PARAMS = ("max_amp", "max_abs_detuning", "min_avg_amp")
 
 
@@ -182,11 +188,21 @@ def h_switch(shape):
                             terms.append(d <= ch.max_duration)
                     elif sl.type == "delay":
                         terms.append(AND(d >= ch.min_duration, d % ch.clock_period == 0))
+                    if ch.addressing == "Local" and ch.max_targets is not None:
+                        terms.append(len(sl.targets) <= ch.max_targets)
                     terms.append(sl.tf % ch.clock_period == 0)
             obs.append(("nonstrict:within_limits_of_new_device", AND(*terms)))
+            obs.append(("nonstrict:same_calls", len(new._calls) == len(seq._calls)))
         if B.max_sequence_duration is not None:
             obs.append(("switch:within_max_sequence_duration", AND(*[cs.slots[-1].tf <= B.max_sequence_duration for cs in new._schedule.values()])))
-            obs.append(("nonstrict:same_calls", len(new._calls) == len(seq._calls)))
+        if not shape.get("param"):
+            # whatever the mode: no slot of the returned sequence addresses more atoms than its (new) channel allows
+            tt = []
+            for name, cs in new._schedule.items():
+                ch = cs.channel_obj
+                if ch.addressing == "Local" and ch.max_targets is not None:
+                    tt += [len(sl.targets) <= ch.max_targets for sl in cs.slots]
+            obs.append(("switch:targets_within_max_targets", AND(*tt) if tt else True))
         return obs
 
     return h
@@ -243,6 +259,14 @@ def kernels(tier):
                          [["ryd_glob", "eom.intermediate_detuning", 500 * TWO_PI]]):
                 ks.append(("switch", dict(program=prog, sym=[], concrete=conc, strict=True)))
         ks.append(("register", dict(program=prog)))
+    for strict in (True, False):
+        ks.append(("switch", dict(program="multi_init", sym=[["ryd_loc", "max_targets"]], strict=strict)))
+    for conc in ([["dmm_0", "bottom_detuning", -5.0]], [["ryd_glob", "max_amp", 60.0]]):
+        ks.append(("switch", dict(program="slm", sym=[], concrete=conc, strict=True)))
+    ks.append(("switch", dict(program="slm", sym=[["ryd_glob", "max_amp"]], strict=False)))
+    # DMM channels are compared like every other channel under strict
+    for conc in ([["dmm_0", "clock_period", 8]], [["dmm_0", "mod_bandwidth", 10.0]], [["dmm_0", "min_duration", 16]]):
+        ks.append(("switch", dict(program="dmm", sym=[], concrete=conc, strict=True)))
     for strict in (True, False):
         for p in ("fixed_retarget_t", "min_retarget_interval"):
             ks.append(("switch", dict(program="retarget_tail", sym=[["ryd_loc", p]], maxseq=True, strict=strict)))
